@@ -239,7 +239,7 @@ def run_config(args):
     # (3b) the helper types that are exported behave as under `full`: Debug + Display always, std's Error with `std`
     out["helper_trait_errors"] = []
     present = [h for h in HELPERS if "derive_more::%s" % h in out["exports"]]
-    if present:
+    if present or "error" in cfg:
         tdir2 = os.path.join(base, "traits%d" % slot)
         feats = ", ".join('"%s"' % f for f in list(cfg) + (["std"] if std else []))
         common.write_if_changed(os.path.join(tdir2, "Cargo.toml"), """[package]
@@ -266,6 +266,25 @@ derive_more = { path = "%s", default-features = false, features = [%s] }
             if std:
                 lines.append("    std_error::<%s>(); // %s" % (ty, h))
         lines.append("}")
+        if "error" in cfg:
+            # `derive(Error)` alone (hand-written Debug/Display) with every source flavour the run-time helper
+            # `AsDynError` serves under `full`: concrete errors, `Box<dyn Error>` with each auto-trait combination,
+            # references; with and without std (alloc only)
+            errp = "::std::error::Error" if std else "::core::error::Error"
+            lines += ["extern crate alloc;", "pub mod error_sources {", "    use alloc::boxed::Box;",
+                      "    #[derive(Debug)] pub struct Leaf;",
+                      "    impl ::core::fmt::Display for Leaf { fn fmt(&self, f: &mut ::core::fmt::Formatter<'_>) -> ::core::fmt::Result { f.write_str(\"leaf\") } }",
+                      "    impl %s for Leaf {}" % errp]
+            flavours = [("Concrete", "Leaf"), ("BoxDyn", "Box<dyn %s>" % errp), ("BoxDynSend", "Box<dyn %s + Send>" % errp), ("BoxDynSendSync", "Box<dyn %s + Send + Sync>" % errp),
+                        ("BoxDynSendSyncUnwind", "Box<dyn %s + Send + Sync + ::core::panic::UnwindSafe>" % errp), ("BoxDynStatic", "Box<dyn %s + Send + Sync + 'static>" % errp),
+                        ("BoxConcrete", "Box<Leaf>"),
+                        ("RefDyn", "&'static (dyn %s + Send + Sync)" % errp), ("RefConcrete", "&'static Leaf")]
+            for nm, ty in flavours:
+                lines += ["    #[derive(derive_more::Error)] pub struct S%s { source: %s } // Error" % (nm, ty),
+                          "    impl ::core::fmt::Debug for S%s { fn fmt(&self, f: &mut ::core::fmt::Formatter<'_>) -> ::core::fmt::Result { f.write_str(\"e\") } }" % nm,
+                          "    impl ::core::fmt::Display for S%s { fn fmt(&self, f: &mut ::core::fmt::Formatter<'_>) -> ::core::fmt::Result { f.write_str(\"e\") } }" % nm,
+                          "    pub fn use_%s(e: &S%s) -> bool { %s::source(e).is_some() } // Error" % (nm.lower(), nm, errp)]
+            lines.append("}")
         common.write_if_changed(os.path.join(tdir2, "src", "lib.rs"), "\n".join(lines) + "\n")
         rc, diags, arts, err = common.cargo_json(tdir2, ("check",), jobs=2, target=tdir, timeout=1800)
         for d in diags:
